@@ -54,6 +54,22 @@ def r_is_single(ck: Checker) -> None:
         ck.add("returned position holds the aggregate's result variable", ok, func, ret, f"index from {sorted(org)}, guarded by equality with the `=` bound variable: {ok}", "G2: the value that is unfolded must be the aggregate value")
 
 
+def r_anonymous_use(ck: Checker) -> None:
+    """has_anonymous_vars: `True` for an atom of THE predicate with an `_` argument, `False` only after every body literal"""
+    func = ck.func(f"{CLS}.has_anonymous_vars")
+    it = ck.interp(func)
+    pred, body = func.params()[-2:]
+    loops = [lp for lp in find_nodes(func.node, lambda n: isinstance(n, ast.For)) if unparse(lp.iter) == body]  # type: ignore[attr-defined]
+    ck.need(len(loops) == 1 and isinstance(loops[0].target, ast.Name), "has_anonymous_vars scans the body")  # type: ignore[attr-defined]
+    lit = loops[0].target.id  # type: ignore[attr-defined]
+    falses = [r for r in returns_of(func) if not is_const(r.value, True)]
+    ck.add("no anonymous use is reported only after the whole body was scanned", bool(falses) and all(enclosing_loop(func, r) is None and is_const(r.value, False) for r in falses), func, falses[0] if falses else func.node,
+           f"negative answers: {[fmt(r) for r in falses]}", "an early `return False` at the first literal of another predicate hides `h(_,S)` further back: unfolding then multiplies tuples")
+    itp = ck.interp(func, Pins.of(facts={f"is_predicate({lit})": True, f"Predicate({lit}.atom.symbol.name, len({lit}.atom.symbol.arguments)) == {pred}": True, f"any(map(lambda x: x == Variable(LOC, '_'), {lit}.atom.symbol.arguments))": True}))
+    back = itp.loop_back.get(id(loops[0]), [])
+    ck.add("an atom of the predicate with an `_` argument is reported", not back and itp.reachable(loops[0]), func, loops[0], f"under 'atom of {pred} with an anonymous argument' an iteration can complete without answering True: {bool(back)}", "")
+
+
 def r_rule_dependency(ck: Checker) -> None:
     """RuleDependency: uses are recorded once per occurrence, for every statement kind that has a body"""
     func = ck.func("dependency:RuleDependency.__init__")
@@ -391,6 +407,7 @@ def r_fresh_dependency(ck: Checker) -> None:
 RULES = [
     Rule("C15.fresh-dependency", P, r_fresh_dependency),
     Rule("C15.A.is-single", P, r_is_single),
+    Rule("C15.A.anonymous-use", P, r_anonymous_use),
     Rule("C15.uses", P, r_rule_dependency, extra={**{p_: ("every defining",) for p_ in ("C12", "C13", "C09", "C06", "C02")}, "C07": ("the single user is a rule or an objective",)}),
     Rule("C15.TABLE.good", PG, r_good_table),
     Rule("C15.G6.padding", PG + ("C15",), r_padding),
